@@ -576,6 +576,8 @@ func lastTarget(o obs, ref string) string {
 
 // ---- lane F: one injected storage failure inside Apply ----
 
+var faultNoted bool
+
 var mutatingSteps = map[string]bool{"SetReference": true, "DeleteReference": true, "ResetDueToError": true, "Commit.cas": true}
 
 func countMutatingSteps(ms *memstore.Store) int {
@@ -634,11 +636,19 @@ func faultSeam(ms *memstore.Store, w *mWorld, before obs, col *evid.Collector) (
 		moved := after.P != before.P
 		_, oi := before.latest(policyRef)
 		_, ni := after.latest(policyRef)
+		which := "later-apply"
+		if before.P == "" {
+			which = "first-apply"
+		}
 		if moved || oi != ni {
 			col.Inc("fault_failed_apply_left_policy_ref_or_entry")
-			col.Class("F/apply/fault@%s/error-returned/policy-ref-or-entry-left-changed", failedAt)
+			col.Class("F/%s/fault@%s/error-returned/policy-ref-or-entry-left-changed", which, failedAt)
+			if !faultNoted {
+				faultNoted = true
+				col.Note("not judged (storage failures are outside C12's quantifier, C16's subject): with an injected failure at %s a %s returns the error but leaves policy ref %q -> %q, policy entries %d -> %d", failedAt, which, before.P, after.P, oi, ni)
+			}
 		} else {
-			col.Class("F/apply/fault@%s/error-returned/policy-unchanged", failedAt)
+			col.Class("F/%s/fault@%s/error-returned/policy-unchanged", which, failedAt)
 		}
 	}
 	return verdict{}, 0
@@ -861,7 +871,9 @@ func TestC12(t *testing.T) {
 	thorough := evid.Thorough()
 	depthM, depthG := 4, 3
 	if thorough {
-		depthM, depthG = 6, 4
+		// depth 6 with the full alphabet is ~6e8 transitions (measured growth
+		// ~x24 per level): out of reach; C12_DEPTH_M=6 forces it (time-capped)
+		depthM, depthG = 5, 4
 	}
 	if v := os.Getenv("C12_DEPTH_M"); v != "" {
 		fmt.Sscan(v, &depthM)
@@ -871,7 +883,13 @@ func TestC12(t *testing.T) {
 	}
 	col.Bound("depth_lane_M", depthM)
 	col.Bound("depth_lane_G", depthG)
-	col.Rule("breadth-first search over policy-lifecycle operation sequences. Lane M (depth %d, starts %v): menu regenerated in every state = staged-metadata edits with the real tuf mutators and dsse helpers (add/remove root key, root threshold, global rule, rule, initialise) each signed by one key of {R0,R1,U} resp. {T0,U}, extra signatures, stage, policy.Apply, policy.Discard, and tampering (policy/staging ref := first policy commit | unrelated policy commit | deleted; log entry for either ref naming its current tip | the first policy commit | the unrelated commit without moving the ref). States are merged on a canonical key (both tips, ordered targets of all policy entries, latest staging entry and the number of policy entries before it; commits renamed by tree+parents+message); the merge is cross-checked against exact ref-map dedup at a smaller depth. Lane F: every successful Apply re-run with one injected storage failure per mutating step (only nil returns judged). Lane G (depth %d): gittuf.Repository API on real git with file-based ssh signers. The invariant is evaluated after every operation incl. failed ones by a raw reader of refs, log and metadata; a class is (lane, operation, signer, outcome class)", depthM, mStarts, depthG)
+	col.Rule("breadth-first search over policy-lifecycle operation sequences. Lane M (depth %d, starts %v): menu regenerated in every state = staged-metadata edits with the real tuf mutators and dsse helpers (add/remove root key, root threshold, global rule, rule, initialise) each signed by one key of {R0,R1,U} resp. {T0,U}, extra signatures, stage, policy.Apply, policy.Discard (quick tier: one representative signer per signer class, see thoroughOnly), and tampering (policy/staging ref := first policy commit | unrelated policy commit | deleted; log entry for either ref naming its current tip | the first policy commit | the unrelated commit without moving the ref). States are merged on a canonical key (both tips, ordered targets of all policy entries, latest staging entry and the number of policy entries before it; commits renamed by tree+parents+message); the merge is cross-checked against exact ref-map dedup at a smaller depth. Lane F: every successful Apply re-run with one injected storage failure per mutating step (only nil returns judged). Lane G (depth %d): gittuf.Repository API on real git with file-based ssh signers. The invariant is evaluated after every operation incl. failed ones by a raw reader of refs, log and metadata; a class is (lane, operation, signer, outcome class)", depthM, mStarts, depthG)
+	{
+		ms := memstore.New()
+		w := startOn(ms, "applied2")
+		col.Bound("alphabet_lane_M", len(menuM(observe(memView{ms}), w, thorough)))
+	}
+	col.Bound("alphabet_lane_G", len(menuG(thorough)))
 	col.Assume("memstore stands in for git in lane M (bound to real git by C03's trace conformance and by lane G running the same Apply/Discard code on real repositories); ssh ed25519 keys only; no controller/network repositories, no hooks, no GitHub apps; entries and policy commits are unsigned (Apply does not look at their signatures); one writer, no remote; storage failures (lane F) are not part of the property's quantifier and only a nil return of Apply is judged under them")
 
 	if rf := evid.ReplayFile(); rf != "" {
